@@ -92,6 +92,13 @@ func runOneHistory(cfg *RunCfg, rep *Reporter, cov *Cov, idx, steps int) {
 	if !h.open(opts, true) {
 		return
 	}
+	if prop == "C19" && idx%5 == 0 {
+		// a read-only session on the still empty directory
+		first := Op{Kind: "rosession"}
+		h.ops = append(h.ops, first)
+		cov.Add("ops.rosession", 1)
+		h.step(&first)
+	}
 	for s := 0; s < steps && !h.failed && h.aborted == ""; s++ {
 		op := h.gen.genOp(h)
 		h.ops = append(h.ops, op)
@@ -1994,10 +2001,26 @@ func (h *Hist) doROSession(op *Op) {
 		return
 	}
 	h.cov.Add("evaluations", 1)
+	gcFirst := h.gen.r.Chance(0.5)
+	if gcFirst {
+		// the queries then meet unloaded segments (on an empty directory: the synthetic one)
+		if err := kGC(l, 0); err != nil {
+			h.fail(failf("ro:gc:"+errClass(err), "GC on a read-only handle failed: %s", errText(err)))
+			kClose(l)
+			return
+		}
+		h.cov.Add("ro_sessions_with_gc_before_queries", 1)
+	}
+	if len(before) == 0 {
+		h.cov.Add("ro_sessions_on_empty_directory", 1)
+	}
 	got := observe(l, oo)
 	if why, diff := diffObs(want, got); diff {
 		call := callOf(strings.Trim(strings.SplitN(why, " vs ", 2)[0], `"`))
-		h.fail(&Fail{Sig: "ro:answers-differ:" + call, What: fmt.Sprintf("a read-only handle answers differently from a read-write handle on the same files (index files removed=%v): %s", rmIdx, why)})
+		if gcFirst {
+			call += ":after-gc"
+		}
+		h.fail(&Fail{Sig: "ro:answers-differ:" + call, What: fmt.Sprintf("a read-only handle answers differently from a read-write handle on the same files (index files removed=%v, GC(0) before the queries=%v): %s", rmIdx, gcFirst, why)})
 		kClose(l)
 		return
 	}
